@@ -44,6 +44,8 @@ def spec_tags(spec):
             tags.add("nested_tperm")
         if s["cls"] == "Cat" and s["opt"].get("mode") == "cat" and s["opt"].get("dim") == -3:
             tags.add("cat_along_last_batch_dim")
+        if s["cls"] == "Cat" and s["opt"].get("mode") == "cat" and s["opt"].get("dim", 0) <= -3:
+            tags.add("cat_along_batch_dim")
         if s["cls"] == "Kron" and s["n"] == s["m"] and any(c["n"] != c["m"] for c in s["children"]):
             tags.add("kron_rect_factors")
         if s["cls"] == "KronAddedDiag" and s["children"][1]["cls"] == "KronDiag":
